@@ -451,7 +451,8 @@ func hooksC13() Hooks {
 
 // foreignSegment closes the log, lets the reference encoder append messages to the
 // directory (a new head segment, or the existing empty/compatible head), and reopens.
-//   op.A: version (1/2); op.B: index mode 0 none, 1 write index; op.Msgs: messages
+//
+//	op.A: version (1/2); op.B: index mode 0 none, 1 write index; op.Msgs: messages
 func foreignSegment(r *Run, op *Op) {
 	if r.L != nil {
 		if err := guard(func() error { return r.L.Close() }); err != nil {
